@@ -218,7 +218,8 @@ def _save_load(k, via_constructor):
     return thm
 
 
-for _k in (0, 1, 2):
+import os as _os2
+for _k in ((0, 1, 2) if _os2.environ.get("VERIF_TIER_EFFECTIVE", "quick") == "quick" else (0, 1, 2, 3, 4)):
     _save_load(_k, False)
 _save_load(0, True)
 _save_load(1, True)
